@@ -102,6 +102,11 @@ func (e *Exec) materialize(name string, typ types.Type) Value {
 		if e.nonNil[name] {
 			nilc = False
 		}
+		if et, ok := isSortedMapType(u.Elem()); ok {
+			reg := e.lazyRegion(name+"^smap", et)
+			e.allRegs[reg.Name] = reg
+			return VSMap{Nil: nilc, Reg: reg, Elem: et}
+		}
 		obj := e.lazyObject(name+"^", u.Elem())
 		return VPtr{Nil: nilc, Loc: &Loc{Obj: obj}, Elem: u.Elem()}
 	case *types.Slice:
@@ -182,6 +187,9 @@ func (e *Exec) zeroValue(typ types.Type) Value {
 		}
 		return vs
 	case *types.Pointer:
+		if et, ok := isSortedMapType(u.Elem()); ok {
+			return VSMap{Nil: True, Elem: et}
+		}
 		return VPtr{Nil: True, Elem: u.Elem()}
 	case *types.Slice:
 		return VSlice{Nil: True, Base: BVConst(64, 0), Len: BVConst(64, 0), Cap: BVConst(64, 0), Elem: u.Elem()}
